@@ -5,7 +5,7 @@ THEOREMS = ["C04_holds", "C04_holds_native", "C04_step", "C04_step_evm", "C04_fa
 
 
 def run(ctx):
-    common.app_check(ctx, "C04", "theories/Props/C04.v", THEOREMS, codes=[11, 1], pred="P_C04",
+    common.app_check(ctx, "C04", "theories/Props/C04.v", THEOREMS, codes=[11, 1], pred="P_C04", effect_codes=(22, 23),
                      extra_assume=["nonces stay below 2^64-1 (hypothesis of C04_holds; Example nonce_wraps shows the wrap otherwise)",
                                    "on the EVM path the nonce step is the observed effect's (go-ethereum bumps the sender's nonce); stated as hypothesis evm_effect_nonce_ok"],
                      nontrivial_rule="non-trivial = history with validator updates; replays, duplicated and out-of-order nonces are part of the invalid stream (see distribution: replay, bad-nonce-high, bad-nonce-low)")
